@@ -191,6 +191,16 @@ Lemma F45_refuted :
   pp (fun _ => []) (fun _ => false) repaired w45c_blocks = Ok (dec "    # c $5c;$a;").
 Proof. repeat split; vm_compute; reflexivity. Qed.
 
+(* F46:  "x = 1\nimport __future__\n__future__\n"  - the plain module import attracts the mandatory from-__future__ import *)
+Definition i_futmod : import := mkImp [dec "__future__"] (dec "__future__").
+Definition w46_blocks : list block :=
+  [Other [mkStmt KCode (dec "x = 1$a;")] None; Imps (mkIB 1 2 true 3 true [i_futmod]); Other [mkStmt KCode (dec "__future__$a;")] None].
+Lemma F46_refuted :
+  is_future i_futmod = false /\
+  select_block unchanged w46_blocks i_div None = Ok (Some (mkIB 1 2 true 3 true [i_futmod])) /\
+  select_block repaired w46_blocks i_div None = Ok None.
+Proof. repeat split; vm_compute; reflexivity. Qed.
+
 (* non-vacuity of no_internal_error: its hypotheses hold of the F35 input *)
 Example no_internal_error_nonvacuous :
   inv wnv_blocks /\ ok_seq (iblocks wnv_blocks) /\
